@@ -121,7 +121,7 @@ const NAMES: &[&str] = &[
     // operations on values the caller keeps: nothing may be closed, nothing may stay behind
     "unix_stream_io", "tcp_stream_io", "tcp_read_timeout_expires", "file_io", "dir_iterate", "epoll_existing",
     "unix_accept_timeout", "unix_accept_timeout_expires", "tcp_accept_timeout", "tcp_connect_timeout", "child_wait",
-    "tcp_inprogress_try_connect", "anon_pipe_io", "child_try_wait",
+    "tcp_inprogress_try_connect", "anon_pipe_io", "child_try_wait", "openpty_named", "spawn_mixed",
 ];
 
 #[allow(clippy::too_many_lines)]
@@ -430,6 +430,25 @@ fn setup(name: &str, root: &Path) -> Scen {
                 Ret::unit(r)
             })
         }
+        "spawn_mixed" => scen(move || {
+            let mut c = Command::new(lit("/bin/true")).unwrap();
+            c.env(UnixString::try_from_str("A=1").unwrap());
+            c.stdin(Stdio::MakePipe).stdout(Stdio::Null).stderr(Stdio::Inherit);
+            spawn_ret(c.spawn())
+        }),
+        "openpty_named" => scen(move || {
+            // the slave is opened by the given name (any openable path will do for the descriptor accounting)
+            let r = tiny_std::unix::misc::openpty::openpty(Some(lit("/dev/null")), None, None);
+            match r {
+                Ok(h) => {
+                    let fds = vec![h.master.value(), h.slave.value()];
+                    let mut ret = Ret::ok(fds.clone(), true, Box::new(()));
+                    ret.raw_close = fds;
+                    ret
+                }
+                Err(e) => Ret::err(e),
+            }
+        }),
         "openpty" | "openpty_termios" => {
             let with = name == "openpty_termios";
             scen(move || {
